@@ -401,6 +401,10 @@ def run(repo: Repo, chk: Check):
         dups = {v: ns for v, ns in byval.items() if len(ns) > 1}
         chk.judge("R08.f", f"types_generated:{en}", not dups and len(mem) > 0, f"enum {en}: members sharing a number {dups}: the number printed in compact mode "
                   f"does not identify the name printed in verbose mode", {"members": len(mem)}, f"{gpath} class {en}")
+        if getattr(mem, "auto", None):
+            chk.bad("R08.f", f"types_generated:{en}:numbers are the game's, written down",
+                    f"enum {en}: {mem.auto[:4]} are numbered by enum.auto() ({', '.join(f'{n_}={v_}' for n_, v_, _ in mem[:3])}): the compact output carries a number that the game "
+                    f"does not give to the name the verbose output prints", {"auto": mem.auto}, f"{gpath} class {en}")
 
     from .c03 import r03k
     chk.guarded(r03k, repo, chk, "R08.i")
@@ -546,4 +550,68 @@ def r08c_unwrap(repo, chk, R="R08.c"):
             continue
         raise AnalysisError(f"compute_hash: how the wrapper is removed was not understood: {norm(v)[:80]}")
     if n == 0:
+        n = _unwrap_by_regex(repo, chk, R, t, fn, where)
+    if n == 0:
         raise AnalysisError("compute_hash: removal of the HASH(\"...\") wrapper not found")
+
+
+def _unwrap_by_regex(repo, chk, R, t, fn, where):
+    """name = PATTERN.match(name).group(..): the pattern is evaluated (by the checker's own re module, on the pattern text only)
+    against every prefab name of the generated tables, bare, quoted and wrapped: the name must come back unchanged."""
+    import re as _re
+    found = 0
+    for st in ast.walk(fn):
+        if not (isinstance(st, ast.Assign) and len(st.targets) == 1 and isinstance(st.targets[0], ast.Name)):
+            continue
+        v = st.value
+        # <m>.group(g)  /  <m>[g]   with  <m> = P.match(x) | re.match(p, x)
+        grp, mcall = None, None
+        if isinstance(v, ast.Call) and isinstance(v.func, ast.Attribute) and v.func.attr == "group" and isinstance(v.func.value, ast.Call):
+            grp = v.args[0].value if v.args and isinstance(v.args[0], ast.Constant) else 0
+            mcall = v.func.value
+        elif isinstance(v, ast.Subscript) and isinstance(v.value, ast.Call) and isinstance(v.slice, ast.Constant):
+            grp, mcall = v.slice.value, v.value
+        if mcall is None or not isinstance(mcall.func, ast.Attribute) or mcall.func.attr not in ("match", "fullmatch", "search"):
+            continue
+        pat_src, flags, subject = None, 0, None
+        recv = mcall.func.value
+        if isinstance(recv, ast.Name) and recv.id == "re" and len(mcall.args) >= 2 and isinstance(mcall.args[0], ast.Constant):
+            pat_src, subject = mcall.args[0].value, mcall.args[1]
+            flag_exprs = mcall.args[2:] + [k.value for k in mcall.keywords if k.arg == "flags"]
+        elif isinstance(recv, ast.Name) and recv.id in t.assigns and len(t.assigns[recv.id]) == 1:
+            cv = t.assigns[recv.id][0].value
+            if isinstance(cv, ast.Call) and norm(cv.func) == "re.compile" and cv.args and isinstance(cv.args[0], ast.Constant):
+                pat_src, subject = cv.args[0].value, mcall.args[0] if mcall.args else None
+                flag_exprs = cv.args[1:] + [k.value for k in cv.keywords if k.arg == "flags"]
+        if not isinstance(pat_src, str) or subject is None or norm(subject) != st.targets[0].id:
+            continue
+        for fe_ in flag_exprs:
+            for a in ast.walk(fe_):
+                if isinstance(a, ast.Attribute) and hasattr(_re, a.attr):
+                    flags |= getattr(_re, a.attr)
+        try:
+            rx = _re.compile(pat_src, flags)
+        except _re.error as e:
+            raise AnalysisError(f"compute_hash: pattern {pat_src!r} does not compile: {e}")
+        found += 1
+        how = {"match": rx.match, "fullmatch": rx.fullmatch, "search": rx.search}[mcall.func.attr]
+        sg = repo.mod("structures_generated")
+        names = sorted({c.value.value for c in ast.walk(sg.tree) if isinstance(c, (ast.Assign, ast.AnnAssign)) and isinstance(getattr(c, "value", None), ast.Constant)
+                        and isinstance(c.value.value, str) and any(norm(x) == "_prefab_name" for x in (c.targets if isinstance(c, ast.Assign) else [c.target]))})
+        names += ["Tank (A)", 'a"b', "x)", "(y", "In"]
+        wrong = []
+        for nm in names:
+            for spelled in (nm, f'"{nm}"', f'HASH("{nm}")'):
+                mo = how(spelled)
+                got = None
+                if mo is not None:
+                    try:
+                        got = mo.group(grp)
+                    except (IndexError, _re.error):
+                        got = None
+                if got != nm:
+                    wrong.append((spelled, got))
+        chk.judge(R, "types:compute_hash:the wrapper HASH(\"...\") is removed exactly", not wrong,
+                  f"the pattern {pat_src!r} does not give back the name it was handed for {len(wrong)} of {3 * len(names)} spellings, e.g. {wrong[0][0]!r} -> {wrong[0][1]!r}: the hash "
+                  f"operand is computed from another string than the table's prefab name" if wrong else "", {"pattern": pat_src, "checked": 3 * len(names)}, where)
+    return found
